@@ -532,6 +532,7 @@ class MolGraph:
         :param atoms: Iterable of atom ids to be
         :return: Subgraph
         """
+        atoms = tuple(atoms)  # the iterable may be a one-shot iterator
         new_atoms = set(atoms)
         atom_attrs = {atom: self._atom_attrs[atom].copy() for atom in atoms}
         bond_attrs = {
@@ -545,7 +546,7 @@ class MolGraph:
         }
         new_graph = self.__class__()
         new_graph._atom_attrs = atom_attrs
-        new_graph._neighbors = neighbors
+        new_graph._neighbors = defaultdict(set, neighbors)
         new_graph._bond_attrs = bond_attrs
         return new_graph
 
